@@ -20,7 +20,9 @@ func checkC15(c *Ctx) {
 	c.Expect("C15-R1", 1)
 	c.Expect("C15-R2", 49)
 	c.Expect("C15-R3", 60)
+	c.Rule("C15-R5", "TPuts segmentation: the text before a padding marker is written as is, exactly the marker / terminator bytes are skipped, an unterminated specification is written back with the same marker, a string without padding is written whole, and the sleep is taken only under a non-empty pad character")
 	c.Expect("C15-R4", 4)
+	c.Expect("C15-R5", 6)
 	if err := tpSelfTest(); err != nil {
 		c.Undecided("C15-R2", "self-test", "-", err.Error())
 		return
@@ -36,6 +38,7 @@ func checkC15(c *Ctx) {
 	c15Colours(c, p, db)
 	c15TColor(c, p)
 	c15TPuts(c, p)
+	c15TPutsSegments(c, p)
 }
 
 func c15Goto(c *Ctx, p *Prog) {
@@ -375,4 +378,161 @@ func c15TPuts(c *Ctx, p *Prog) {
 		}
 	}
 	c.Check(back > 0 && okProg, "C15-R4", "TPuts:progress", p.pos(fn.Pos()), fmt.Sprintf("%d back edge(s) of the scanning loop, each dominated by a reslice past the marker", back))
+}
+
+// c15TPutsSegments: the scanner must cut the string exactly at the padding
+// markers.  strings.Index(s, M) = i: text before is s[:i]; the rest starts at
+// i+len(M).  A skip shorter than the marker leaves marker bytes in the output
+// (or re-scans them), a longer one swallows payload bytes.
+func c15TPutsSegments(c *Ctx, p *Prog) {
+	fn := p.Fn("terminfo:(*Terminfo).TPuts")
+	if fn == nil {
+		c.Undecided("C15-R5", "TPuts", "-", "not found")
+		return
+	}
+	type idxInfo struct {
+		call   *ssa.Call
+		marker string
+	}
+	var idxs []idxInfo
+	eachInstr(fn, func(in ssa.Instruction) {
+		if call, ok := in.(*ssa.Call); ok && calleeName(&call.Call) == "strings.Index" && len(call.Call.Args) == 2 {
+			m, ok := constString(call.Call.Args[1])
+			if !ok {
+				c.Undecided("C15-R5", "TPuts:marker", p.pos(in.Pos()), "strings.Index with a non-constant marker")
+				return
+			}
+			idxs = append(idxs, idxInfo{call, m})
+		}
+	})
+	if len(idxs) != 2 {
+		c.Undecided("C15-R5", "TPuts:markers", p.pos(fn.Pos()), fmt.Sprintf("expected the opening and the closing marker search, found %d", len(idxs)))
+		return
+	}
+	role := func(i int) string {
+		if i == 0 {
+			return "marker"
+		}
+		return "terminator"
+	}
+	markerOf := func(v ssa.Value) (int, bool) {
+		for i, ii := range idxs {
+			if v == ssa.Value(ii.call) {
+				return i, true
+			}
+		}
+		return 0, false
+	}
+	c.Check(idxs[0].marker == "$<" && idxs[1].marker == ">", "C15-R5", "TPuts:markers", p.pos(idxs[0].call.Pos()),
+		fmt.Sprintf("padding is delimited by %q and %q", idxs[0].marker, idxs[1].marker))
+	// the terminator is searched in the string that starts right after the marker
+	sawSkip := map[int]bool{}
+	sawPrefix := map[int]bool{}
+	eachInstr(fn, func(in ssa.Instruction) {
+		sl, ok := in.(*ssa.Slice)
+		if !ok {
+			return
+		}
+		if sl.Low != nil && sl.High == nil {
+			base, k := sl.Low, int64(0)
+			if bo, ok := sl.Low.(*ssa.BinOp); ok && bo.Op == token.ADD {
+				if kk, ok := constInt(bo.Y); ok {
+					base, k = bo.X, kk
+				} else if kk, ok := constInt(bo.X); ok {
+					base, k = bo.Y, kk
+				}
+			}
+			if i, ok := markerOf(base); ok {
+				sawSkip[i] = true
+				c.Check(k == int64(len(idxs[i].marker)) && idxs[i].call.Call.Args[0] == sl.X, "C15-R5", "TPuts:skip-"+role(i), p.pos(in.Pos()),
+					fmt.Sprintf("the rest of the string starts %d byte(s) after the position of %q (its length is %d)", k, idxs[i].marker, len(idxs[i].marker)))
+			}
+		}
+		if sl.Low == nil && sl.High != nil {
+			if i, ok := markerOf(sl.High); ok {
+				sawPrefix[i] = true
+				c.Check(idxs[i].call.Call.Args[0] == sl.X, "C15-R5", "TPuts:before-"+role(i), p.pos(in.Pos()), "the text before the "+role(i)+" is the prefix up to its position in the same string")
+			}
+		}
+	})
+	for i := 0; i < 2; i++ {
+		if !sawSkip[i] {
+			c.Fail("C15-R5", "TPuts:skip-"+role(i), p.pos(fn.Pos()), "no reslice past the "+role(i))
+		}
+		if !sawPrefix[i] {
+			c.Fail("C15-R5", "TPuts:before-"+role(i), p.pos(fn.Pos()), "the text before the "+role(i)+" is never taken")
+		}
+	}
+	// the search for the terminator runs on the string that follows the marker
+	if sl, ok := idxs[1].call.Call.Args[0].(*ssa.Slice); ok {
+		_, isAfter := func() (int, bool) {
+			if bo, ok := sl.Low.(*ssa.BinOp); ok {
+				return markerOf(bo.X)
+			}
+			return 0, false
+		}()
+		c.Check(isAfter, "C15-R5", "TPuts:terminator-searched-after-marker", p.pos(idxs[1].call.Pos()), "the terminator is searched in the text following the marker")
+	} else {
+		c.Fail("C15-R5", "TPuts:terminator-searched-after-marker", p.pos(idxs[1].call.Pos()), "the terminator is not searched in the text following the marker")
+	}
+	// writes: classify every io.WriteString argument
+	nWrites := 0
+	okWhole, okPrefix, okVerbatim := false, false, false
+	eachInstr(fn, func(in ssa.Instruction) {
+		cc := callCommon(in)
+		if cc == nil || calleeName(cc) != "io.WriteString" || len(cc.Args) != 2 {
+			return
+		}
+		nWrites++
+		arg := cc.Args[1]
+		g := guardsAt(in.Block())
+		switch x := arg.(type) {
+		case *ssa.Slice:
+			if i, ok := markerOf(x.High); ok && i == 0 && x.Low == nil && hasAtom(g, Atom{valName(idxs[0].call), ">=", "0"}) {
+				okPrefix = true
+				return
+			}
+		case *ssa.BinOp:
+			if x.Op == token.ADD {
+				if m, ok := constString(x.X); ok {
+					// "$<" + rest, under end < 0
+					rest, isSl := x.Y.(*ssa.Slice)
+					good := m == idxs[0].marker && isSl && rest == idxs[1].call.Call.Args[0] && hasAtom(g, Atom{valName(idxs[1].call), "<", "0"})
+					c.Check(good, "C15-R5", "TPuts:unterminated-verbatim", p.pos(in.Pos()), fmt.Sprintf("an unterminated specification is written as %q followed by the text after the marker", m))
+					okVerbatim = good
+					return
+				}
+			}
+		case *ssa.Phi:
+			if x == idxs[0].call.Call.Args[0] && hasAtom(g, Atom{valName(idxs[0].call), "<", "0"}) {
+				okWhole = true
+				return
+			}
+		}
+		if arg == idxs[0].call.Call.Args[0] && hasAtom(g, Atom{valName(idxs[0].call), "<", "0"}) {
+			okWhole = true
+			return
+		}
+		c.Fail("C15-R5", "TPuts:write:"+valName(arg), p.pos(in.Pos()), "a write that is neither the text before a marker, the unterminated remainder, nor the padding-free string")
+	})
+	c.Check(okWhole, "C15-R5", "TPuts:no-padding-verbatim", p.pos(fn.Pos()), "a string without a padding marker is written whole")
+	c.Check(okPrefix, "C15-R5", "TPuts:prefix-written", p.pos(fn.Pos()), "the text before each padding marker is written")
+	if !okVerbatim {
+		c.Fail("C15-R5", "TPuts:unterminated-verbatim", p.pos(fn.Pos()), "no write of the unterminated remainder")
+	}
+	// sleep only with a pad character
+	eachInstr(fn, func(in ssa.Instruction) {
+		cc := callCommon(in)
+		if cc == nil || calleeName(cc) != "time.Sleep" {
+			return
+		}
+		g := guardsAt(in.Block())
+		ok := false
+		for _, a := range g {
+			if strings.Contains(a.L, "PadChar") && ((a.Op == ">" && a.R == "0") || (a.Op == "!=" && (a.R == "0" || a.R == `""`)) || (a.Op == ">=" && a.R == "1")) {
+				ok = true
+			}
+		}
+		c.Check(ok, "C15-R5", "TPuts:sleep-needs-padchar", p.pos(in.Pos()), fmt.Sprintf("guards at the sleep: %v", g))
+	})
 }
